@@ -57,8 +57,8 @@ fn c11_punch_fallback() {
 // @cost 100
 // @timeout 1200
 // @needs E0
-// @desc the creation of a new refcount block (tail of ensure_refblock_offset from the placement computation to the end, lifted verbatim; cache insertion shimmed) for the first cluster of a host range that has no refcount block yet: the block is placed at the first cluster of the range it describes (cluster aligned, reserved bits clear), the refcount-table entry points to it and its table block is queued dirty, need_flush is set, the cluster is registered as new (zeroed before its first write), and the slice handed to the cache counts exactly one reference -- the block's own cluster, entry 0 -- and nothing else; key and byte offset of that slice are those of the block's first slice
-// @bounds refcount table of 64 entries (arbitrary old content in the addressed entry's neighbours not modelled: table zero-initialised); rt_index 0..64; cluster_bits 9..=16, refcount_order 0..=6 symbolic; refcount slices of 512 bytes
+// @desc the creation of a new refcount block (tail of ensure_refblock_offset from the placement computation to the end, lifted verbatim; cache insertion shimmed) for the first cluster of a host range that has no refcount block yet: the block is placed at the first cluster of the range it describes (cluster aligned, reserved bits clear), the refcount-table entry points to it and its table block is queued dirty, need_flush is set, the cluster is registered as new (zeroed before its first write), and the slice handed to the cache has the refcount cache's slice size and counts exactly one reference -- the block's own cluster, entry 0 -- and nothing else; key and byte offset of that slice are those of the block's first slice
+// @bounds refcount table of 64 entries (arbitrary old content in the addressed entry's neighbours not modelled: table zero-initialised); rt_index 0..64; cluster_bits 10..=16, refcount_order 0..=6 symbolic; refcount slices of 512 bytes, L2 slices of 1 KiB (different on purpose)
 // @funcs Qcow2Dev::ensure_refblock_offset (tail) RefTable::set_refblock_offset RefBlock::{new,increment} HostCluster::{rb_slice_key,rb_slice_off_in_table}
 // @stub alloc::fmt::format -> String::new()
 // @assume the cluster that triggers the creation is the first cluster of the uncovered refcount-block range (the allocator only advances to refcount-block boundaries)
@@ -68,8 +68,9 @@ fn c11_punch_fallback() {
 fn c12_new_refblock() {
     let cb: u32 = kani::any();
     let order: u32 = kani::any();
-    kani::assume(cb >= 9 && cb <= 16 && order <= 6);
-    let info = mk_info(cb, order, 1u64 << 40, 9, Some((9, 1024)), Some((9, 1024)), false, false, false);
+    kani::assume(cb >= 10 && cb <= 16 && order <= 6);
+    // different slice sizes for the two caches (1 KiB L2 slices, 512-byte refcount slices)
+    let info = mk_info(cb, order, 1u64 << 40, 9, Some((10, 2048)), Some((9, 1024)), false, false, false);
     let env = KEnv::new(info);
     let mut rt = RefTable::new(Some(1u64 << cb), 512, 9);
     let rt_index: usize = kani::any();
@@ -95,6 +96,9 @@ fn c12_new_refblock() {
     assert!(a.off as usize == HostCluster(host).rb_slice_key(&env.info) && a.len == 0);
     let slot = env.added_rb.borrow();
     let rb = slot.as_ref().unwrap();
+    // a refcount slice of the refcount cache's slice size
+    assert!(rb.byte_size() == 1usize << env.info.rb_slice_bits);
+    assert!(rb.entries() == env.info.rb_slice_entries() as usize);
     assert!(rb.get(0).into_plain() == 1);
     let j: usize = kani::any();
     kani::assume(j >= 1 && j < rb.entries());
